@@ -102,3 +102,97 @@ Proof.
              (lx * ly - 0 * 0) / ((0 * 0 - ly * 0) * 0 + (- lx * 0 + 0 * 0) * 0 + (lx * ly - 0 * 0) * lz) * (p2z - p1z))
       with ((p2z - p1z) / lz) by (field; repeat split; assumption). ring.
 Qed.
+
+(* ------------------------------------------------------------------ polarPhi: the azimuth of the centre of mass *)
+Lemma sqrt_ratio (x y : R) : x <> 0 -> sqrt (1 + (y / x)²) = sqrt (x * x + y * y) / Rabs x.
+Proof.
+  intros Hx. assert (Ha : 0 < Rabs x) by (apply Rabs_pos_lt; exact Hx).
+  apply sqrt_lem_1.
+  - unfold Rsqr. pose proof (Rle_0_sqr (y / x)). unfold Rsqr in H. lra.
+  - apply Rmult_le_pos; [apply sqrt_pos | left; apply Rinv_0_lt_compat; exact Ha].
+  - unfold Rdiv at 1 2. replace (sqrt (x * x + y * y) * / Rabs x * (sqrt (x * x + y * y) * / Rabs x))
+      with ((sqrt (x * x + y * y) * sqrt (x * x + y * y)) * (/ Rabs x * / Rabs x)) by ring.
+    rewrite sqrt_sqrt by nra. rewrite <- Rinv_mult. replace (Rabs x * Rabs x) with (x * x) by (rewrite <- Rabs_mult; symmetry; apply Rabs_pos_eq; nra).
+    unfold Rsqr. field. exact Hx.
+Qed.
+(* atan2 gives the polar angle: rho cos(phi) = x, rho sin(phi) = y with rho = sqrt(x^2 + y^2) *)
+Lemma Ratan2_polar (y x : R) : (x <> 0 \/ y <> 0) ->
+  sqrt (x * x + y * y) * cos (Ratan2 y x) = x /\ sqrt (x * x + y * y) * sin (Ratan2 y x) = y.
+Proof.
+  intros H. set (rho := sqrt (x * x + y * y)).
+  assert (Hrho : 0 < rho) by (apply sqrt_lt_R0; destruct H; nra).
+  unfold Ratan2. destruct (Rlt_dec 0 x) as [Hx|Hx].
+  - rewrite cos_atan, sin_atan, sqrt_ratio by lra. fold rho. rewrite Rabs_pos_eq by lra. split; field; lra.
+  - destruct (Rlt_dec x 0) as [Hx'|Hx'].
+    + assert (Hax : Rabs x = - x) by (apply Rabs_left; exact Hx').
+      destruct (Rle_dec 0 y) as [Hy|Hy].
+      * rewrite neg_cos, neg_sin, cos_atan, sin_atan, sqrt_ratio by lra. fold rho. rewrite Hax. split; field; lra.
+      * unfold Rminus. rewrite cos_plus, sin_plus, cos_neg, sin_neg, cos_PI, sin_PI, cos_atan, sin_atan, sqrt_ratio by lra.
+        fold rho. rewrite Hax. split; field; lra.
+    + assert (x = 0) by lra. subst x.
+      assert (Hy0 : y <> 0) by (destruct H; [congruence | assumption]).
+      assert (Er : rho = Rabs y).
+      { unfold rho. replace (0 * 0 + y * y) with (y * y) by ring. rewrite <- (Rabs_pos_eq (y * y)) by nra.
+        rewrite Rabs_mult. apply sqrt_square. apply Rabs_pos. }
+      destruct (Rlt_dec 0 y) as [Hy|Hy].
+      * rewrite cos_PI2, sin_PI2, Er, Rabs_pos_eq by lra. split; ring.
+      * destruct (Rlt_dec y 0) as [Hy'|Hy']; [|exfalso; lra].
+        replace (- PI / 2) with (- (PI / 2)) by field. rewrite cos_neg, sin_neg, cos_PI2, sin_PI2, Er, Rabs_left by lra. split; ring.
+Qed.
+Lemma polar_phi_polar (g : list atomR) :
+  let '(x, y, z) := com Rops g in (x <> 0 \/ y <> 0) ->
+  sqrt (x * x + y * y) * cos (cv_polar_phi Rops PI g * (PI / 180)) = x /\
+  sqrt (x * x + y * y) * sin (cv_polar_phi Rops PI g * (PI / 180)) = y /\
+  - 180 < cv_polar_phi Rops PI g <= 180.
+Proof.
+  unfold cv_polar_phi. destruct (com Rops g) as [[x y] z]. intros H. unfold deg. rs.
+  replace (180 / PI * Ratan2 y x * (PI / 180)) with (Ratan2 y x) by (field; apply PI_neq0).
+  destruct (Ratan2_polar y x H) as [H1 H2]. split; [exact H1 | split; [exact H2|]].
+  (* range of atan2 *)
+  assert (Hr : - PI < Ratan2 y x <= PI).
+  { unfold Ratan2. pose proof PI_RGT_0. pose proof (atan_bound (y / x)).
+    destruct (Rlt_dec 0 x); [lra|]. destruct (Rlt_dec x 0) as [Hx|Hx].
+    - destruct (Rle_dec 0 y) as [Hy|Hy].
+      + assert (Hix : / x < 0) by (apply Rinv_lt_0_compat; exact Hx).
+        assert (y / x <= 0) by (unfold Rdiv; nra).
+        assert (atan (y / x) <= 0).
+        { destruct (Req_dec (y / x) 0) as [E0|E0]; [rewrite E0, atan_0; lra|].
+          left. rewrite <- atan_0. apply atan_increasing. lra. }
+        lra.
+      + assert (Hix : / x < 0) by (apply Rinv_lt_0_compat; exact Hx).
+        assert (0 < y / x) by (unfold Rdiv; nra).
+        assert (0 < atan (y / x)) by (rewrite <- atan_0; apply atan_increasing; assumption). lra.
+    - destruct (Rlt_dec 0 y); [lra|]. destruct (Rlt_dec y 0); lra. }
+  pose proof PI_RGT_0 as Hpi.
+  split.
+  - apply Rmult_lt_reg_r with (PI / 180); [lra|]. replace (180 / PI * Ratan2 y x * (PI / 180)) with (Ratan2 y x) by (field; apply PI_neq0). lra.
+  - apply Rmult_le_reg_r with (PI / 180); [lra|]. replace (180 / PI * Ratan2 y x * (PI / 180)) with (Ratan2 y x) by (field; apply PI_neq0). lra.
+Qed.
+
+(* rotating all atoms about the z axis by alpha adds alpha to the azimuth (stated on cosine and sine, i.e. modulo 360) *)
+Definition rot_z (alpha : R) : M3 := ((cos alpha, - sin alpha, 0), (sin alpha, cos alpha, 0), (0, 0, 1)).
+Lemma polar_phi_rot_z (alpha : R) (g : list atomR) :
+  let '(x, y, z) := com Rops g in (x <> 0 \/ y <> 0) ->
+  cos (cv_polar_phi Rops PI (rot_group (rot_z alpha) g) * (PI / 180)) = cos (cv_polar_phi Rops PI g * (PI / 180) + alpha) /\
+  sin (cv_polar_phi Rops PI (rot_group (rot_z alpha) g) * (PI / 180)) = sin (cv_polar_phi Rops PI g * (PI / 180) + alpha).
+Proof.
+  pose proof (polar_phi_polar g) as H0. pose proof (polar_phi_polar (rot_group (rot_z alpha) g)) as H1.
+  rewrite com_rot in H1. destruct (com Rops g) as [[x y] z]. intros Hxy.
+  unfold rot_z in *. unfold mat_vec, v3dot in H1. rs.
+  set (x' := cos alpha * x + - sin alpha * y + 0 * z) in *. set (y' := sin alpha * x + cos alpha * y + 0 * z) in *.
+  assert (Hn : x' * x' + y' * y' = x * x + y * y).
+  { unfold x', y'. pose proof (sin2_cos2 alpha) as Hsc. unfold Rsqr in Hsc.
+    replace ((cos alpha * x + - sin alpha * y + 0 * z) * (cos alpha * x + - sin alpha * y + 0 * z) +
+             (sin alpha * x + cos alpha * y + 0 * z) * (sin alpha * x + cos alpha * y + 0 * z))
+      with ((sin alpha * sin alpha + cos alpha * cos alpha) * (x * x + y * y)) by ring. rewrite Hsc. ring. }
+  assert (Hrho : 0 < sqrt (x * x + y * y)) by (apply sqrt_lt_R0; destruct Hxy; nra).
+  assert (Hxy' : x' <> 0 \/ y' <> 0).
+  { destruct (Req_dec x' 0) as [E1|E1]; [|left; exact E1]. right. intros E2. rewrite E1, E2 in Hn.
+    assert (x * x + y * y = 0) by lra. destruct Hxy; nra. }
+  destruct (H0 Hxy) as (A1 & A2 & _). destruct (H1 Hxy') as (B1 & B2 & _). rewrite Hn in B1, B2.
+  set (rho := sqrt (x * x + y * y)) in *. set (p := cv_polar_phi Rops PI g * (PI / 180)) in *.
+  set (p' := cv_polar_phi Rops PI (rot_group ((cos alpha, - sin alpha, 0), (sin alpha, cos alpha, 0), (0, 0, 1)) g) * (PI / 180)) in *.
+  rewrite cos_plus, sin_plus. split.
+  - apply Rmult_eq_reg_l with rho; [|lra]. rewrite B1. unfold x'. rewrite <- A1, <- A2. ring.
+  - apply Rmult_eq_reg_l with rho; [|lra]. rewrite B2. unfold y'. rewrite <- A1, <- A2. ring.
+Qed.
